@@ -2,6 +2,7 @@
 bb8 enforces the bound and the queue (library, not decided); decided is that pgcat configures and uses
 bb8 so that the bound can hold and no guard leaks."""
 from mirlib import *
+from common import cancelled_io_findings
 
 H = "pgcat::client::Client::handle::{closure#0}"
 FROM_CONFIG = "pgcat::pool::ConnectionPool::from_config::{closure#0}"
@@ -189,3 +190,12 @@ def run(ctx):
             r7.check(bool(wrapped) and "connect_timeout" in dur_f, "startup-under-connect-timeout", "Server::startup is the future given to timeout(connect_timeout)",
                      "Server::startup has no deadline: a server that accepts the TCP connection and then says nothing keeps the attempt - and its slot of the pool - for ever; "
                      "with pool_size = 1 every later checkout times out, also after the server has recovered", st7[0].where())
+
+    # ---------------- R8 a connection that stopped answering does not keep its slot
+    r8 = ctx.rule("C04-R8", "`after any history the full capacity is available again`: a pooled connection that did not answer within its deadline (health check at checkout, a client's statement) is marked bad on the "
+                  "elapsed arm, so bb8's has_broken() evicts it and its slot is free for a new connection - a silent connection that went back to the idle queue would be handed out again and again", floor=2)
+    for fn, ok, where, wit in cancelled_io_findings(F, scope=lambda n_: n_.startswith("pgcat::pool::") or n_.startswith("pgcat::client::")):
+        short = fn.replace("pgcat::", "").replace("::{closure#0}", "").split("::")[-1]
+        r8.check(ok, "silent=>evicted:" + short, "%s: the elapsed arm of the timeout over server I/O always marks the connection bad" % short,
+                 "%s: a connection whose server did not answer in time is not marked bad: has_broken() is false, it returns to the idle queue with its slot, the next checkout gets it without a check "
+                 "(the check itself refreshed last_activity) and that client's statement waits for ever" % short, where, wit)
